@@ -20,7 +20,8 @@
   sends in acceptance order (lock order / enqueue order; send ids are issued in that order);
   `s.results` — what Send returned.
 -/
-import Golib.Tcp.Recover
+import Golib.Tcp.Drain
+import Golib.Tcp.WireLink
 
 namespace C06
 open Tcp
@@ -120,6 +121,33 @@ theorem frame_length (hash64 : Bytes → Int) (dflt override : Bytes) (pcode : I
     (makeData hash64 dflt override pcode payload).length = 22 + payload.length :=
   mkFrame_length _ _ _
 
+/-! ### the frames are C05's frames -/
+
+/-- with C05's license hash, the frame `makeData` builds is C05's reference frame byte for byte -/
+theorem frame_is_c05_frame (dflt ov : Bytes) (pcode : Int) (pl : Bytes) (hlen : pl.length < 256 ^ 4) :
+    makeData Wire.hash64 dflt ov pcode pl = Wire.frame pcode (effLicense ov dflt) pl :=
+  makeData_eq_wire_frame dflt ov pcode pl hlen
+
+/-- instance of C05's `frame_parse`: the collector's parser reads from a C06 frame the pack's project
+    code, the hash of the license in effect and the payload, consuming exactly the frame -/
+theorem frame_parse_c05 (dflt ov : Bytes) (pcode : Int) (pl r : Bytes) (hp : Prim.inRange 8 pcode)
+    (hlen : pl.length < 2147483648) :
+    P.run Wire.parseFrame (makeData Wire.hash64 dflt ov pcode pl ++ r) =
+      some (⟨10, 0, pcode, Wire.hash64 (effLicense ov dflt), pl⟩, r) :=
+  makeData_parse dflt ov pcode pl r hp hlen
+
+/-- instance of C05's `frame_length`: streams of C05 frames decompose uniquely, so for the client
+    sending C05 frames the collector's split of a connection's bytes is the beginning of that
+    connection's log -/
+theorem parse_is_log_c05 (hl : cfg.sendLocked = true) (pc : Nat → Int) (lic pl : Nat → Bytes)
+    (hlen : ∀ sid, (pl sid).length < 2147483648) (s : St)
+    (hr : Reach cfg (fun sid => Wire.frame (pc sid) (lic sid) (pl sid)) s) (c : Nat) (fs' : List Nat) (t' : Bytes)
+    (ht' : IsTail (fun sid => Wire.frame (pc sid) (lic sid) (pl sid)) t')
+    (hparse : s.delivered c = concatF (fun sid => Wire.frame (pc sid) (lic sid) (pl sid)) fs' ++ t') :
+    ∃ k, fs'.map (fun sid => Wire.frame (pc sid) (lic sid) (pl sid)) =
+      ((s.log.get c).take k).map (fun sid => Wire.frame (pc sid) (lic sid) (pl sid)) :=
+  parse_is_log cfg _ hl 22 _ (wire_frames_selfDelim pc lic pl hlen) s hr c fs' t' ht' hparse
+
 /-! ### recovery -/
 
 /-- Every connection — in particular one made after any sequence of faults — starts at a frame
@@ -147,102 +175,217 @@ theorem recovers (hl : cfg.sendLocked = true) (hne : ∀ sid, bytesOf sid ≠ []
     sender `t` is idle and the send lock is free — after any faults whatever — there is a
     continuation of at most two sends by `t`, containing no fault action, after which a send has
     been accepted and its frame is whole on a connection.  (Two, because a writer left with a
-    sticky error makes the next send fail and close; the one after that dials.)  The queue-mode
-    counterpart — process() dials again at the top of its loop — is exercised by the harness only. -/
-theorem reconnects (hl : cfg.sendLocked = true) (hq : cfg.useQueue = false) (hne : ∀ sid, bytesOf sid ≠ [])
+    sticky error makes the next send fail and close; the one after that dials.)  Queue mode:
+    `queue_drains`. -/
+theorem reconnects (hl : cfg.sendLocked = true) (hra : cfg.rearm = true) (hq : cfg.useQueue = false)
+    (hne : ∀ sid, bytesOf sid ≠ [])
     (s : St) (hr : Reach cfg bytesOf s) (t : Nat) (ht : t ≠ 0) (hidle : s.pc t = .idle) (hlock : s.lock = none) :
     ∃ acts s', run cfg bytesOf acts s = some s' ∧ acts.length ≤ 11 ∧ (∀ a ∈ acts, a.isFault = false) ∧
       ∃ sid, s.nsid ≤ sid ∧ (sid, true) ∈ s'.results ∧ ∃ w, Whole bytesOf s' w sid :=
-  reconnects_direct cfg bytesOf hl hq hne s hr t ht hidle hlock
+  reconnects_direct cfg bytesOf hl hra hq hne s hr t ht hidle hlock
+
+/-- **Queue mode: every queued pack is eventually written whole, in order.**  From every reachable
+    queue-mode state in which process() is idle and the send lock free — after any faults — there
+    is a fault-free continuation in which process() (dialling if there is no connection) empties the
+    queue; afterwards every pack that was queued lies whole on a connection, and (by `order_once`,
+    which holds in every reachable state) in acceptance order. -/
+theorem queue_drains (hl : cfg.sendLocked = true) (hra : cfg.rearm = true) (huq : cfg.useQueue = true)
+    (hne : ∀ sid, bytesOf sid ≠ []) (s : St) (hr : Reach cfg bytesOf s) (hp : s.pc 0 = .idle)
+    (hlk : cfg.procLocked = true → s.lock = none) :
+    ∃ acts s', run cfg bytesOf acts s = some s' ∧ (∀ a ∈ acts, a.isFault = false) ∧ s'.queue = [] ∧
+      s'.pc 0 = .idle ∧ (∀ sid ∈ s.queue, ∃ w, Whole bytesOf s' w sid) ∧
+      (flatLogs s').Pairwise (· < ·) := by
+  obtain ⟨acts, s', h1, h2, h3, h4, h5, _⟩ :=
+    drain cfg bytesOf hl hra huq hne s.queue s (goodQ_reach cfg bytesOf hl hr) rfl hp hlk
+  obtain ⟨a0, ha0⟩ := hr
+  have hr' : Reach cfg bytesOf s' := ⟨a0 ++ acts, by rw [run_append, ha0]; exact h1⟩
+  exact ⟨acts, s', h1, h2, h3, h4, h5, (order_once cfg bytesOf hl s' hr').1⟩
+
+/-- the queue component is C11's RequestQueue model: a Put is refused only when the queue is full,
+    an accepted pack goes to the back, and GetTimeout hands out the front -/
+theorem queue_is_c11 (s s' : St) (t sid : Nat) :
+    (step cfg bytesOf s (.enqueue t sid) = some s' → s.q.room = true ∧ s'.queue = s.queue ++ [sid]) ∧
+    (step cfg bytesOf s (.enqueueFail t sid) = some s' → s.q.room = false ∧ s'.queue = s.queue) ∧
+    (step cfg bytesOf s .dequeue = some s' → ∃ x, s.queue = x :: s'.queue) := by
+  refine ⟨fun h => ?_, fun h => ?_, fun h => ?_⟩
+  · obtain ⟨⟨_, _, _, _, hr⟩, rfl⟩ := step_enqueue h; exact ⟨hr, rfl⟩
+  · obtain ⟨⟨_, _, _, _, hr⟩, rfl⟩ := step_enqueueFail h; exact ⟨hr, rfl⟩
+  · obtain ⟨x, q, _, hq, _, _, rfl⟩ := step_dequeue h; exact ⟨x, hq⟩
+
+/-- **A healthy idle connection never fails a send** (direct mode): however long the client idles
+    (`tick d`, any `d`), the next send on a clean writer — or with no connection: it dials — is
+    accepted and whole on the wire: `send()` re-arms the write deadline before every write. -/
+theorem idle_connection_never_fails (hl : cfg.sendLocked = true) (hra : cfg.rearm = true) (hq : cfg.useQueue = false)
+    (hne : ∀ sid, bytesOf sid ≠ []) (s : St) (hr : Reach cfg bytesOf s) (t : Nat) (ht : t ≠ 0)
+    (hidle : s.pc t = .idle) (hlock : s.lock = none)
+    (hclean : s.conn = none ∨ ∃ w, s.wr = some w ∧ s.err.get w = false) (d : Nat) :
+    ∃ dial s', run cfg bytesOf (.tick d :: okSend t s.nsid (bytesOf s.nsid).length dial) s = some s' ∧
+      (s.nsid, true) ∈ s'.results ∧ ∃ w, Whole bytesOf s' w s.nsid :=
+  idle_then_send_ok cfg bytesOf hl hra hq hne s (good_reach cfg bytesOf hl hr) t ht hidle hlock hclean d
 
 /-! ### with a healthy connection nothing accepted is lost -/
 
-/-- With process() connecting under the send lock (the repaired code): along any schedule without
-    a fault action, every send that was accepted (Send / Put returned success) is still queued,
-    is being sent by process(), or lies whole in what a connection carried and the peer received. -/
-theorem healthy_no_loss (hl : cfg.sendLocked = true) (hbg : cfg.bgLocked = true) (acts : List Act) (s : St)
+/-- The repaired client (process() connects, and sends its items, under the send lock; ApplyConfig
+    closes and re-dials under it): along any schedule without a fault action — reconfigurations
+    (ApplyConfig: Close, Connect), capacity and timeout changes, idle time included — every send
+    that was accepted (Send / Put returned success) is still queued, is being sent by process(), or
+    lies whole in what a connection carried and the peer received. -/
+theorem healthy_no_loss (hl : cfg.sendLocked = true) (hbg : cfg.bgLocked = true) (hac : cfg.acLocked = true)
+    (hpl : cfg.procLocked = true) (acts : List Act) (s : St)
     (hh : Healthy acts) (h : run cfg bytesOf acts init = some s) : NothingLost bytesOf s :=
-  no_loss_locked cfg bytesOf hl hbg acts s hh h
+  no_loss_locked cfg bytesOf hl hbg hac hpl acts s hh h
 
-/-- Whatever process() does about the lock: the same holds along schedules that additionally never
-    take the racy background dial (`bgDialOk`: process() assigning conn/wr after having seen
-    `conn == nil` earlier, without the lock). -/
+/-- Whatever the other locks: the same holds along schedules that additionally contain neither
+    the racy background dial (`bgDialOk`) nor a reconfiguration. -/
 theorem healthy_no_loss_partial (hl : cfg.sendLocked = true) (acts : List Act) (s : St)
     (hh : ∀ a ∈ acts, a.benign = true) (h : run cfg bytesOf acts init = some s) : NothingLost bytesOf s :=
   no_loss_benign cfg bytesOf hl acts s hh h
 
-/-- once the queue is drained and process() is idle, every accepted send is whole on the wire -/
-theorem healthy_drained (hl : cfg.sendLocked = true) (hbg : cfg.bgLocked = true) (acts : List Act) (s : St)
+/-- once the queue is drained and process() is idle, every accepted send is whole on the wire
+    (both modes) -/
+theorem healthy_drained (hl : cfg.sendLocked = true) (hbg : cfg.bgLocked = true) (hac : cfg.acLocked = true)
+    (hpl : cfg.procLocked = true) (acts : List Act) (s : St)
     (hh : Healthy acts) (h : run cfg bytesOf acts init = some s) (hq : s.queue = []) (hp : s.pc 0 = .idle)
     (sid : Nat) (ha : (sid, true) ∈ s.results) : ∃ w, Whole bytesOf s w sid ∧ s.delivered w = s.sent w := by
-  rcases no_loss_locked cfg bytesOf hl hbg acts s hh h sid ha with h1 | h1 | h1
+  rcases no_loss_locked cfg bytesOf hl hbg hac hpl acts s hh h sid ha with h1 | h1 | h1
   · rw [hq] at h1; cases h1
   · rw [hp] at h1; rcases h1 with h2 | ⟨_, _, h2⟩ | ⟨_, h2⟩ <;> cases h2
   · exact h1
 
-/-! ### D42 — the code as found: process() connects without the send lock -/
+/-! ### the code as found: D42 (process() connects without the lock), D70 (ApplyConfig and process()'s
+    sends without the lock), and what re-arming the deadline is for -/
 
 -- (deciding equality of the concrete end states needs a larger instance-search budget than the default)
 set_option synthInstance.maxSize 1024
 
-def cfgFound : Cfg := { useQueue := false, cap := 1000, sendLocked := true, bgLocked := false }
-def cfgFixed : Cfg := { useQueue := false, cap := 1000, sendLocked := true, bgLocked := true }
+def cfgFixed : Cfg :=
+  { useQueue := false, sendLocked := true, bgLocked := true, procLocked := true, acLocked := true, rearm := true }
+/-- the client as first found -/
+def cfgFound : Cfg := { cfgFixed with bgLocked := false, procLocked := false, acLocked := false }
+/-- after fix-D42 only -/
+def cfgD70 : Cfg := { cfgFixed with procLocked := false, acLocked := false }
 def threeBytes : Nat → Bytes := fun sid => [10, 0, sid]
 
-/-- process() sees `conn == nil` and starts to dial; sender 1 connects, copies its frame into the
+/-- no end state of these schedules has anything on the wire -/
+theorem nothing_sent_of {s : St} (h : s.sentRev.toList.map Prod.snd = [[]] ∨ s.sentRev.toList.map Prod.snd = [])
+    (w : Nat) : s.sent w = [] := by
+  have : s.sentRev.get w = [] := AMap.get_eq_of_forall s.sentRev [] rfl (fun p hp => by
+    have hm : p.2 ∈ s.sentRev.toList.map Prod.snd := List.mem_map.mpr ⟨p, hp, rfl⟩
+    rcases h with h | h <;> rw [h] at hm <;> simpa using hm) w
+  simp [St.sent, this]
+
+/-- a schedule after which send `1` was accepted, nobody is in progress, the queue is empty and
+    nothing was ever sent refutes `NothingLost` -/
+theorem refutes_nothingLost {cfg : Cfg} {sched : List Act} (hh : Healthy sched)
+    (h1 : (run cfg threeBytes sched init).map (fun s => (s.results, s.sentRev.toList.map Prod.snd)) = some ([(1, true)], [[]]))
+    (h2 : (run cfg threeBytes sched init).map (fun s => (s.queue, s.pcs.get 0)) = some ([], Pc.idle)) :
+    ¬ (∀ (acts : List Act) (s : St), Healthy acts → run cfg threeBytes acts init = some s → NothingLost threeBytes s) := by
+  intro hall
+  cases hrun : run cfg threeBytes sched init with
+  | none => rw [hrun] at h1; cases h1
+  | some s =>
+    rw [hrun] at h1 h2
+    simp only [Option.map_some, Option.some.injEq, Prod.mk.injEq] at h1 h2
+    obtain ⟨hres, hsent⟩ := h1
+    obtain ⟨hq, hpc⟩ := h2
+    have := hall sched s hh hrun 1 (by rw [hres]; simp)
+    rcases this with h3 | h3 | ⟨w, ⟨pre, post, _, h4⟩, _⟩
+    · rw [hq] at h3; cases h3
+    · have : s.pc 0 = Pc.idle := hpc
+      rw [this] at h3; rcases h3 with h5 | ⟨_, _, h5⟩ | ⟨_, h5⟩ <;> cases h5
+    · rw [nothing_sent_of (Or.inl hsent) w, concatF_append, concatF_singleton] at h4
+      have := List.prefix_nil.mp h4
+      simp [threeBytes] at this
+
+/-- D42: process() sees `conn == nil` and starts to dial; sender 1 connects, copies its frame into the
     buffered writer; process() assigns its own connection and writer; the sender's Flush flushes
     the new, empty writer and Send returns nil. -/
 def scheduleD42 : List Act :=
-  [.bgCheck, .lockSend 1 0, .connectOk 1, .writeBegin 1, .writeChunk 1 3, .writeEnd 1, .bgDialOk, .flushOk 1, .unlock 1]
+  [.bgCheck, .lockSend 1 1, .connectOk 1, .writeBegin 1, .writeChunk 1 3, .writeEnd 1, .bgDialOk, .flushOk 1, .unlock 1]
 
 theorem scheduleD42_healthy : Healthy scheduleD42 := by decide
 
-/-- what the schedule leads to: Send returned nil for send 0, nothing was sent on any connection,
-    the queue is empty and process() is idle -/
 theorem scheduleD42_runs :
-    (run cfgFound threeBytes scheduleD42 init).map
-      (fun s => (s.results, s.sentRev.toList.map Prod.snd)) = some ([(0, true)], [[]]) ∧
-    (run cfgFound threeBytes scheduleD42 init).map (fun s => (s.queue, s.pcs.get 0, s.next)) = some ([], Pc.idle, 2) := by
+    (run cfgFound threeBytes scheduleD42 init).map (fun s => (s.results, s.sentRev.toList.map Prod.snd)) = some ([(1, true)], [[]]) ∧
+    (run cfgFound threeBytes scheduleD42 init).map (fun s => (s.queue, s.pcs.get 0)) = some ([], Pc.idle) := by
   constructor <;> decide
 
-/-- D42: in the code as found, no fault anywhere, a send is accepted and its frame is on no
-    connection — the full no-loss statement fails without `bgLocked`. -/
+/-- D42: in the code as found, no fault anywhere, a send is accepted and its frame is on no connection -/
 theorem finding_D42 :
     ¬ (∀ (acts : List Act) (s : St), Healthy acts → run cfgFound threeBytes acts init = some s →
-        NothingLost threeBytes s) := by
-  intro hall
-  cases hrun : run cfgFound threeBytes scheduleD42 init with
-  | none => have := scheduleD42_runs.1; rw [hrun] at this; cases this
-  | some s =>
-    obtain ⟨hf1, hf2⟩ := scheduleD42_runs
-    rw [hrun] at hf1 hf2
-    simp only [Option.map_some, Option.some.injEq, Prod.mk.injEq] at hf1 hf2
-    obtain ⟨hres, hsent⟩ := hf1
-    obtain ⟨hq, hpc, _⟩ := hf2
-    have := hall scheduleD42 s scheduleD42_healthy hrun 0 (by rw [hres]; simp)
-    rcases this with h1 | h1 | ⟨w, ⟨pre, post, _, h2⟩, _⟩
-    · rw [hq] at h1; cases h1
-    · have : s.pc 0 = Pc.idle := hpc
-      rw [this] at h1; rcases h1 with h3 | ⟨_, _, h3⟩ | ⟨_, h3⟩ <;> cases h3
-    · have hs : s.sent w = [] := by
-        have : s.sentRev.get w = [] := AMap.get_eq_of_forall s.sentRev [] rfl (fun p hp => by
-          have : p.2 ∈ s.sentRev.toList.map Prod.snd := List.mem_map.mpr ⟨p, hp, rfl⟩
-          rw [hsent] at this; simpa using this) w
-        simp [St.sent, this]
-      rw [hs, concatF_append, concatF_singleton] at h2
-      have := List.prefix_nil.mp h2
-      simp [threeBytes] at this
+        NothingLost threeBytes s) :=
+  refutes_nothingLost scheduleD42_healthy scheduleD42_runs.1 scheduleD42_runs.2
 
 /-- the same schedule is not a schedule of the repaired client: its background dial needs the lock -/
 theorem scheduleD42_not_fixed : run cfgFixed threeBytes scheduleD42 init = none := by decide
 
+/-- D70 (direct mode, after fix-D42): sender 1 has copied its frame into the buffered writer; thread 2
+    runs ApplyConfig with a changed license — Close, Connect, no lock —; the sender's Flush flushes
+    the new, empty writer and Send returns nil. -/
+def scheduleD70 : List Act :=
+  [.lockSend 1 1, .connectOk 1, .writeBegin 1, .writeChunk 1 3, .writeEnd 1, .reconfClose 2, .reconfDialOk 2,
+   .flushOk 1, .unlock 1]
+
+theorem scheduleD70_healthy : Healthy scheduleD70 := by decide
+
+theorem scheduleD70_runs :
+    (run cfgD70 threeBytes scheduleD70 init).map (fun s => (s.results, s.sentRev.toList.map Prod.snd)) = some ([(1, true)], [[]]) ∧
+    (run cfgD70 threeBytes scheduleD70 init).map (fun s => (s.queue, s.pcs.get 0)) = some ([], Pc.idle) := by
+  constructor <;> decide
+
+theorem finding_D70 :
+    ¬ (∀ (acts : List Act) (s : St), Healthy acts → run cfgD70 threeBytes acts init = some s →
+        NothingLost threeBytes s) :=
+  refutes_nothingLost scheduleD70_healthy scheduleD70_runs.1 scheduleD70_runs.2
+
+/-- with ApplyConfig under the lock the reconfiguration has to wait for the sender -/
+theorem scheduleD70_not_fixed : run cfgFixed threeBytes scheduleD70 init = none := by decide
+
+/-- D70 (queue mode): ApplyConfig takes the lock, but process() sends its items without it: the
+    consumer has copied the frame of the accepted pack 1 into the writer when the connection is
+    replaced; its Flush flushes the new writer; nothing reports the loss. -/
+def cfgQueueD70 : Cfg := { cfgFixed with useQueue := true, procLocked := false }
+def cfgQueueFixed : Cfg := { cfgFixed with useQueue := true }
+
+def scheduleD70q : List Act :=
+  [.enqueue 1 1, .bgConnectOk, .dequeue, .writeBegin 0, .writeChunk 0 3, .writeEnd 0, .reconfClose 2, .reconfDialOk 2,
+   .flushOk 0]
+
+theorem scheduleD70q_healthy : Healthy scheduleD70q := by decide
+
+theorem scheduleD70q_runs :
+    (run cfgQueueD70 threeBytes scheduleD70q init).map (fun s => (s.results, s.sentRev.toList.map Prod.snd)) = some ([(1, true)], [[]]) ∧
+    (run cfgQueueD70 threeBytes scheduleD70q init).map (fun s => (s.queue, s.pcs.get 0)) = some ([], Pc.idle) := by
+  constructor <;> decide
+
+theorem finding_D70_queue :
+    ¬ (∀ (acts : List Act) (s : St), Healthy acts → run cfgQueueD70 threeBytes acts init = some s →
+        NothingLost threeBytes s) :=
+  refutes_nothingLost scheduleD70q_healthy scheduleD70q_runs.1 scheduleD70q_runs.2
+
+theorem scheduleD70q_not_fixed : run cfgQueueFixed threeBytes scheduleD70q init = none := by decide
+
+/-- What re-arming is for.  If the write deadline were armed once, when the connection is made
+    (`rearm = false`), a healthy connection that idles longer than the timeout could not complete
+    its next flush: the only continuation is the error.  With re-arming the same schedule runs. -/
+def cfgArmOnce : Cfg := { cfgFixed with rearm := false }
+
+def scheduleIdle : List Act :=
+  [.bgConnectOk, .tick 60001, .lockSend 1 1, .writeBegin 1, .writeChunk 1 3, .writeEnd 1, .flushOk 1, .unlock 1]
+
+theorem finding_armOnce :
+    run cfgArmOnce threeBytes scheduleIdle init = none ∧
+    (run cfgArmOnce threeBytes (scheduleIdle.take 6) init).isSome = true ∧
+    (run cfgFixed threeBytes scheduleIdle init).map (fun s => s.results) = some [(1, true)] := by
+  refine ⟨?_, ?_, ?_⟩ <;> decide
+
 /-! ### why the send lock matters -/
 
-def cfgNoLock : Cfg := { useQueue := false, cap := 1000, sendLocked := false, bgLocked := true }
+def cfgNoLock : Cfg := { cfgFixed with sendLocked := false }
 def twoFrames : Nat → Bytes := fun sid => [10 + sid, 20 + sid]
 
 def scheduleNoLock : List Act :=
-  [.lockSend 1 0, .connectOk 1, .writeBegin 1, .writeChunk 1 1, .lockSend 2 1, .writeBegin 2, .writeChunk 2 2,
+  [.lockSend 1 1, .connectOk 1, .writeBegin 1, .writeChunk 1 1, .lockSend 2 2, .writeBegin 2, .writeChunk 2 2,
    .writeEnd 2, .writeChunk 1 1, .writeEnd 1, .flushOk 1]
 
 /-- without the lock two senders' frames interleave in the buffered writer: what connection 0
@@ -255,43 +398,51 @@ theorem finding_nolock :
   | some s =>
     refine ⟨s, rfl, ?_⟩
     have h1 : (run cfgNoLock twoFrames scheduleNoLock init).map (fun s => (s.sentRev.get 0, s.log.get 0)) =
-        some ([20, 21, 11, 10], [0, 1]) := by decide
+        some ([21, 22, 12, 11], [1, 2]) := by decide
     rw [hrun] at h1
     simp only [Option.map_some, Option.some.injEq, Prod.mk.injEq] at h1
     simp only [St.sent, h1.1, h1.2]
     decide
 
-/-! ### non-vacuity: a faulty schedule that is a schedule of the model -/
+/-! ### non-vacuity: schedules of the model with faults, reconfiguration, overflow, idle time -/
 
-/-- three direct sends by two threads; the peer closes connection 0 inside the second frame, the
-    third send fails on flush, the fourth fails on the sticky error and closes, the fifth
-    reconnects; the peer received frame 0 whole, two bytes of frame 1, and on connection 1 frame 4 -/
+/-- direct sends by two threads; the peer closes connection 0 inside the second frame, the third
+    send fails on flush, the fourth fails on the sticky error and closes, the fifth reconnects; the
+    peer received frame 1 whole, two bytes of frame 2, and on connection 1 frame 5 -/
 def scheduleFaulty : List Act :=
-  [.lockSend 1 0, .connectOk 1, .writeBegin 1, .writeChunk 1 3, .writeEnd 1, .flushOk 1, .unlock 1,
-   .lockSend 2 1, .writeBegin 2, .writeChunk 2 2, .writeChunk 2 1, .writeEnd 2, .flushOk 2, .unlock 2,
+  [.lockSend 1 1, .connectOk 1, .writeBegin 1, .writeChunk 1 3, .writeEnd 1, .flushOk 1, .unlock 1,
+   .lockSend 2 2, .writeBegin 2, .writeChunk 2 2, .writeChunk 2 1, .writeEnd 2, .flushOk 2, .unlock 2,
    .peerClose 0 5,
-   .lockSend 1 2, .writeBegin 1, .writeChunk 1 3, .writeEnd 1, .flushErr 1 1, .unlock 1,
-   .lockSend 2 3, .writeSticky 2, .close 2, .unlock 2,
-   .lockSend 1 4, .connectOk 1, .writeBegin 1, .writeChunk 1 3, .writeEnd 1, .flushOk 1, .unlock 1]
+   .lockSend 1 3, .writeBegin 1, .writeChunk 1 3, .writeEnd 1, .flushErr 1 1, .unlock 1,
+   .lockSend 2 4, .writeSticky 2, .close 2, .unlock 2,
+   .lockSend 1 5, .connectOk 1, .writeBegin 1, .writeChunk 1 3, .writeEnd 1, .flushOk 1, .unlock 1]
 
 example : (run cfgFixed threeBytes scheduleFaulty init).map (fun s => (s.delivered 0, s.delivered 1)) =
-    some ([10, 0, 0, 10, 0], [10, 0, 4]) := by decide
+    some ([10, 0, 1, 10, 0], [10, 0, 5]) := by decide
 example : (run cfgFixed threeBytes scheduleFaulty init).map (fun s => (s.log.get 0, s.log.get 1)) =
-    some ([0, 1, 2], [4]) := by decide
+    some ([1, 2, 3], [5]) := by decide
 example : (run cfgFixed threeBytes scheduleFaulty init).map (fun s => s.results) =
-    some [(4, true), (3, false), (2, false), (1, true), (0, true)] := by decide
+    some [(5, true), (4, false), (3, false), (2, true), (1, true)] := by decide
 
 example : Reach cfgFixed threeBytes ((run cfgFixed threeBytes scheduleFaulty init).get (by decide)) :=
   ⟨scheduleFaulty, by simp⟩
 
-/-- queue mode: two enqueues, process() connects, sends both, the queue overflows once -/
-def cfgQueue : Cfg := { useQueue := true, cap := 2, sendLocked := true, bgLocked := true }
+/-- queue mode, repaired client: capacity 2, two packs accepted, the third refused (C11: full), the
+    capacity raised, a fourth accepted; process() connects and sends under the lock; ApplyConfig
+    reconnects in between (it has to wait for the lock); idle time; everything accepted arrives, in order -/
 def scheduleQueue : List Act :=
-  [.enqueue 1 0, .enqueue 2 1, .enqueueFail 1 2, .bgConnectOk, .dequeue, .writeBegin 0, .writeChunk 0 3, .writeEnd 0,
-   .flushOk 0, .dequeue, .writeBegin 0, .writeChunk 0 3, .writeEnd 0, .flushOk 0]
+  [.setCapacity 2, .enqueue 1 1, .enqueue 2 2, .enqueueFail 1 3, .setCapacity 3, .enqueue 1 4, .bgConnectOk,
+   .dequeue, .writeBegin 0, .writeChunk 0 3, .writeEnd 0, .flushOk 0,
+   .reconfClose 3, .reconfDialOk 3, .tick 100000,
+   .dequeue, .writeBegin 0, .writeChunk 0 3, .writeEnd 0, .flushOk 0,
+   .dequeue, .writeBegin 0, .writeChunk 0 3, .writeEnd 0, .flushOk 0]
 
 example : Healthy scheduleQueue := by decide
-example : (run cfgQueue threeBytes scheduleQueue init).map (fun s => (s.delivered 0, s.results)) =
-    some ([10, 0, 0, 10, 0, 1], [(2, false), (1, true), (0, true)]) := by decide
+example : (run cfgQueueFixed threeBytes scheduleQueue init).map (fun s => (s.delivered 0, s.delivered 1)) =
+    some ([10, 0, 1], [10, 0, 2, 10, 0, 4]) := by decide
+example : (run cfgQueueFixed threeBytes scheduleQueue init).map (fun s => (s.results, s.queue, s.lock)) =
+    some ([(4, true), (3, false), (2, true), (1, true)], [], none) := by decide
+/-- a Put cannot be refused while there is room (C11's rule, not "may refuse at any time") -/
+example : run cfgQueueFixed threeBytes [.setCapacity 2, .enqueue 1 1, .enqueueFail 1 2] init = none := by decide
 
 end C06
